@@ -62,7 +62,7 @@ impl Scenario for Pairs {
     fn runs(&self, tier: Tier) -> u64 {
         match tier {
             Tier::Quick => 300000,
-            Tier::Thorough => 30000000,
+            Tier::Thorough => 16000000,
         }
     }
     fn declare(&self, cov: &mut Cov) {
@@ -464,7 +464,7 @@ impl Scenario for Dual {
     fn runs(&self, tier: Tier) -> u64 {
         match tier {
             Tier::Quick => 200000,
-            Tier::Thorough => 30000000,
+            Tier::Thorough => 12000000,
         }
     }
     fn declare(&self, cov: &mut Cov) {
